@@ -191,7 +191,7 @@ pub fn check_on(tier: Tier, only: Option<Vec<Selected>>) -> i32 {
         .unwrap_or_else(|| "python3".to_string());
     let limit: usize = std::env::var("PDLMC_LIMIT").ok().and_then(|s| s.parse().ok()).unwrap_or(usize::MAX);
     // thorough: every 2nd of the ~10^4 selected states (the selection itself is 8x the quick one)
-    let py_stride: usize = std::env::var("PDLMC_PY_STRIDE").ok().and_then(|s| s.parse().ok()).unwrap_or(if thorough && !single { 4 } else { 1 });
+    let py_stride: usize = std::env::var("PDLMC_PY_STRIDE").ok().and_then(|s| s.parse().ok()).unwrap_or(if thorough && !single { 8 } else { 1 });
     let jobs: Vec<(&Selected, bool)> = sel.states.iter().step_by(py_stride.max(1)).take(limit).flat_map(|s| [(s, false), (s, true)]).collect();
     let t_gen = std::sync::atomic::AtomicU64::new(0);
     let t_py = std::sync::atomic::AtomicU64::new(0);
@@ -271,7 +271,7 @@ pub fn check_on(tier: Tier, only: Option<Vec<Selected>>) -> i32 {
             t_gen.fetch_add(t0.elapsed().as_millis() as u64, std::sync::atomic::Ordering::Relaxed);
             let t1 = std::time::Instant::now();
             let status = Command::new("timeout")
-                .arg("300")
+                .arg(if thorough { "7200" } else { "1800" })
                 .arg(&python)
                 .arg(format!("{VERIF_DIR}/drivers/pydrv.py"))
                 .arg(&tf)
